@@ -225,3 +225,45 @@ package band
 //@   loop 0: invariant running: forall j int :: 0 <= j && j < 16 ==> chMask[j] == ite(rangeindex >= 0 && j <= rangeindex % 16, b.uplinkChannels[(rangeindex/16)*16 + j].enabled, false)
 //@   loop 0: modifies pl.ChannelMasks, chMask, c
 //@   loop 0: decreases len(b.uplinkChannels) - rangeindex
+//@ func lemmaC10_isolation_EU868
+//@   props C10
+//@   inlines (*band.band).AddChannel (*band.band).DisableUplinkChannelIndex (*band.band).EnableUplinkChannelIndex (*band.band).GetUplinkChannel
+//@ func lemmaC10_isolation_US915
+//@   props C10
+//@   inlines (*band.band).AddChannel (*band.band).DisableUplinkChannelIndex (*band.band).EnableUplinkChannelIndex (*band.band).GetUplinkChannel
+//@ func lemmaC10_isolation_EU433
+//@   props C10
+//@   inlines (*band.band).AddChannel (*band.band).DisableUplinkChannelIndex (*band.band).EnableUplinkChannelIndex (*band.band).GetUplinkChannel
+//@ func lemmaC10_isolation_CN779
+//@   props C10
+//@   inlines (*band.band).AddChannel (*band.band).DisableUplinkChannelIndex (*band.band).EnableUplinkChannelIndex (*band.band).GetUplinkChannel
+//@ func lemmaC10_isolation_IN865
+//@   props C10
+//@   inlines (*band.band).AddChannel (*band.band).DisableUplinkChannelIndex (*band.band).EnableUplinkChannelIndex (*band.band).GetUplinkChannel
+//@ func lemmaC10_isolation_KR920
+//@   props C10
+//@   inlines (*band.band).AddChannel (*band.band).DisableUplinkChannelIndex (*band.band).EnableUplinkChannelIndex (*band.band).GetUplinkChannel
+//@ func lemmaC10_isolation_RU864
+//@   props C10
+//@   inlines (*band.band).AddChannel (*band.band).DisableUplinkChannelIndex (*band.band).EnableUplinkChannelIndex (*band.band).GetUplinkChannel
+//@ func lemmaC10_isolation_ISM2400
+//@   props C10
+//@   inlines (*band.band).AddChannel (*band.band).DisableUplinkChannelIndex (*band.band).EnableUplinkChannelIndex (*band.band).GetUplinkChannel
+//@ func lemmaC10_isolation_CN470
+//@   props C10
+//@   inlines (*band.band).AddChannel (*band.band).DisableUplinkChannelIndex (*band.band).EnableUplinkChannelIndex (*band.band).GetUplinkChannel
+//@ func lemmaC10_isolation_AS923
+//@   props C10
+//@   inlines (*band.band).AddChannel (*band.band).DisableUplinkChannelIndex (*band.band).EnableUplinkChannelIndex (*band.band).GetUplinkChannel
+//@ func lemmaC10_isolation_AS923_2
+//@   props C10
+//@   inlines (*band.band).AddChannel (*band.band).DisableUplinkChannelIndex (*band.band).EnableUplinkChannelIndex (*band.band).GetUplinkChannel
+//@ func lemmaC10_isolation_AS923_3
+//@   props C10
+//@   inlines (*band.band).AddChannel (*band.band).DisableUplinkChannelIndex (*band.band).EnableUplinkChannelIndex (*band.band).GetUplinkChannel
+//@ func lemmaC10_isolation_AS923_4
+//@   props C10
+//@   inlines (*band.band).AddChannel (*band.band).DisableUplinkChannelIndex (*band.band).EnableUplinkChannelIndex (*band.band).GetUplinkChannel
+//@ func lemmaC10_isolation_AU915
+//@   props C10
+//@   inlines (*band.band).AddChannel (*band.band).DisableUplinkChannelIndex (*band.band).EnableUplinkChannelIndex (*band.band).GetUplinkChannel
